@@ -137,22 +137,31 @@ def run_steps(unit) -> UnitResult:
     rep = StubRepresentation(2)
     problem = SingleObjectiveProblem(lambda p: [2.0, 0.0, 1.0][p.v % 3])
     for term in unit["terms"]:
+        shared = {}
         for n in unit["sizes"]:
             for k in range(1, n + 1):
-                for form in ("list", "population", "iterator"):
+                for form in ("list", "population", "iterator", "list-reused-step"):
                     def run(src, term=term, n=n, k=k, form=form):
                         ev = SequentialEvaluator()
                         inds = [Individual(rep._new(i % 3), rep) for i in range(n)]
-                        if form == "list":
+                        if form in ("list", "list-reused-step"):
                             pop = inds
                         elif form == "population":
                             pop = Population(iter(inds), SingleObjectiveProgressTracker(problem, ev))
                         else:
                             pop = iter(inds)
-                        return len(list(build(term).apply(problem, ev, rep, src, pop, k, 1)))
+                        if form == "list-reused-step":
+                            # one step object serves every (population, k) case of this term, as a step object
+                            # serves every generation (and several runs) in practice
+                            if "step" not in shared:
+                                shared["step"] = build(term)
+                            step = shared["step"]
+                        else:
+                            step = build(term)
+                        return len(list(step.apply(problem, ev, rep, src, pop, k, 1)))
 
                     st = ExploreStats()
-                    for ex in explore(run, max_dev=unit["max_dev"], max_execs=50, horizon=2000, stats=st):
+                    for ex in explore(run, max_dev=0 if form == "list-reused-step" else unit["max_dev"], max_execs=50, horizon=2000, stats=st):
                         r.executions += 1
                         w = {"unit": {"kind": "steps", "terms": [term], "sizes": [n], "max_dev": unit["max_dev"]}, "k": k, "form": form,
                              "choices": list(ex.choices)}
